@@ -193,6 +193,8 @@ class ImportVisitor(ast.NodeVisitor):
 
 _sys_path_lock = Lock()
 _known_dirs = set()
+# the subset of _known_dirs that did not exist when last looked at
+_missing_dirs = set()
 
 
 def add_sys_path(path):
@@ -208,14 +210,19 @@ def add_sys_path(path):
     Args:
         path (Path-like): path to add to sys.path
     """
-    if path in _known_dirs:
+    if path in _known_dirs and path not in _missing_dirs:
         return
 
     path_obj = path if isinstance(path, Path) else Path(path)
 
     if not path_obj.exists():
+        # remember it didn't exist: it might well exist by the next time a
+        # pipeline loads from it, and then it does have to go into sys.path.
         _known_dirs.add(path)
+        _missing_dirs.add(path)
         return
+
+    _missing_dirs.discard(path)
 
     # sys path doesn't accept Path
     path_str = str(path_obj)  # .resolve(True)? instead for extended paths?
